@@ -132,22 +132,25 @@ CLAIMED["C15"] = (
 # clauses added in later rounds (seeded changes, systematic mutants, defects D7-D10); appended to the `Decides` text
 ADDENDA = {
     "C01": "Later clauses: a cache hit records its observation; backward projection collects exactly projections; CalleeOrder updates are order-preserving and abort_callee removes exactly the callee; "
-           "the popped stripped-buffer edge is the one processed; firewall set and the observations of its members are replaced together with the callees' current fingerprints (D8).",
+           "the popped stripped-buffer edge is the one processed; firewall set and the observations of its members are replaced together with the callees' current fingerprints (D8). Round 5: only abort_callee / clear take entries out of the recorded order; C01.o is a lower bound (User, RepairFirewall); KNOWN FINDINGS K1 (C01.t: a callee read by an executor for the first time is verified against unrepaired firewalls) and K2 (C01.u, two sites: a pending backward projection is honoured only at its own epoch) are reported as KNOWN-FINDING lines, see DESIGN 6b.",
     "C02": "Later clauses: upgrade_to_exclusive resets every memoised column after re-acquiring; the tier upgrade of a caller set re-inserts every drained member; the key-of-set loader / overlay / merging reader "
-           "clauses of C09 (as C02.h), because caller sets are key-of-set entries.",
-    "C03": "Later clause: no Recompute is reachable from a Cleaned / NoNeed answer of a callee check (only a changed value forces re-execution).",
-    "C04": "Later clauses: a session starts uncommitted and only commit() sets the flag; the phase lock is acquired only by Engine::tracked / snapshot_graph_from, the session guard only by Engine::input_session.",
-    "C05": "Later clauses: defuse disarms / new arms the undo tokens; Guard::drop reaches take()+spawn on EVERY path (no early exit); the join of parallel repair chunks lowers the flag only on Ok(Cleaned) (as C05.f); abort_callee removes on both arms (as C05.g).",
-    "C06": "Later clauses: register_callee registers on every path; the probe marks the start false; the Result of a callee's repair is inspected before its stored info is read (D9).",
-    "C07": "Later clauses: QueryKind::Input is written exactly for explicit inputs (set_input/update true, refresh false); batch coalescing / staging clauses of C09 (as C07.f).",
+           "clauses of C09 (as C02.h), because caller sets are key-of-set entries. Round 5: epoch read under the phase lock (C04.a as C02.j); KNOWN FINDING K3 (C02.i: the undo token of register_callee belongs to the call, not to the registration).",
+    "C03": "Later clause: no Recompute is reachable from a Cleaned / NoNeed answer of a callee check (only a changed value forces re-execution). Round 5: observations of every callee survive a clean verification (C01.s as C03.k).",
+    "C04": "Later clauses: a session starts uncommitted and only commit() sets the flag; the phase lock is acquired only by Engine::tracked / snapshot_graph_from, the session guard only by Engine::input_session. Round 5: every guarded() tail of the reader phase owns an ActiveComputationGuard (C04.h, D13); the session's propagation starts from an empty visited set (C01.p as C04.i).",
+    "C05": "Later clauses: defuse disarms / new arms the undo tokens; Guard::drop reaches take()+spawn on EVERY path (no early exit); the join of parallel repair chunks lowers the flag only on Ok(Cleaned) (as C05.f); abort_callee removes on both arms (as C05.g). Round 5: KNOWN FINDING K3 as C05.h.",
+    "C06": "Later clauses: register_callee registers on every path; the probe marks the start false; the Result of a callee's repair is inspected before its stored info is read (D9). Round 5: edge-role / arm-symmetry clauses of set_computed (C01.c as C06.i).",
+    "C07": "Later clauses: QueryKind::Input is written exactly for explicit inputs (set_input/update true, refresh false); batch coalescing / staging clauses of C09 (as C07.f). Round 5: the interned-handle decode clauses (C15.c, C15.a as C07.g).",
     "C09": "Later clauses: in-memory insert reaches the set on every path; every scanned member is inserted before the loader may spill; a message for the staging log is applied or deferred, never dropped; "
-           "every filtered source of the merging reader is re-polled after a rejected member (D10).",
+           "every filtered source of the merging reader is re-polled after a rejected member (D10). Round 5: the committer's consume-before-notify clauses (C10.a as C09.j).",
     "C10": "Later clauses: a popped batch is consumed before it is listed for notification; the committer drains until nothing is ready; each backend commit is exactly one store write on every path (C08.d/e as C10.g).",
     "C11": "Later clauses: operations of one batch are applied in issue order; consume replays every recorded operation; the serializer's raw-read and varint-reader clauses (C12.l, C12.k as C11.h), since both backends decode every stored byte with them.",
     "C12": "Later clauses: both halves of as_slices are consumed; decoded BitVec cut to the bit length; the four varint readers are the same loop up to the width, return on the clear-0x80 edge, mask 0x7f, step 7 (C12.k); "
-           "no read_exact in a loop targets the whole / a prefix of a loop-carried result buffer, read_raw_bytes sizes its buffer by len (C12.l); the interner's double-checked insertion (C15.a, as C12.f).",
-    "C13": "Later clauses: every field of every hand-written StableHash impl is hashed (table), every impl feeds the hasher.",
-    "C16": "Later clauses: on_write polarity, unpin leaves the Pinned region.",
+           "no read_exact in a loop targets the whole / a prefix of a loop-carried result buffer, read_raw_bytes sizes its buffer by len (C12.l); the interner's double-checked insertion (C15.a, as C12.f). D11: a bit vector's raw storage is read only after force_align on the same local or under a head-offset guard (C12.m).",
+    "C13": "Later clauses: every field of every hand-written StableHash impl is hashed (table), every impl feeds the hasher. Round 4: no raw-storage read of a bit vector in a hash (C13.c, shared with C12.m).",
+    "C08": "Round 4: the epoch a reopened engine starts from is stored with the session's batch and reloaded (C07.d as C08.g).",
+    "C14": "Round 4: every site of one column family asks for the same column kind, both backends (C11.d as C14.g).",
+    "C15": "Round 4: unordered collections hash order-independently and no hash reads addresses / layout / raw storage (C13.b, C13.c as C15.d).",
+    "C16": "Later clauses: on_write polarity, unpin leaves the Pinned region. D12: a region head is unwrapped only under a test of that region's own length (C16.f).",
 }
 for k_, v_ in ADDENDA.items():
     t_ = CLAIMED[k_]
@@ -191,7 +194,7 @@ m = {
     "not_applicable": [{"property_id": i, "reason": NOT_YET} for i in ids if i not in CLAIMED],
     "notes": "Technique family: static analysis only (no execution of the engine). quick = all rules on the RocksDB-free build shape (plus the shapes a rule names itself); "
              "thorough = quick plus a second pass of every rule on the full workspace build (default features, integration-test crate). See DESIGN.md. "
-             "Fixed defects are logged in known_findings.json.",
+             "Fixed defects (D1-D13) and the known findings K1-K3 (recorded, not repaired; printed as KNOWN-FINDING lines, exit 0) are in known_findings.json and DESIGN.md sections 6 / 6b.",
 }
 json.dump(m, open(os.path.join(HERE, "MANIFEST.json"), "w"), indent=1)
 print("claimed:", [c["property_id"] for c in checks])
